@@ -16,6 +16,7 @@ import (
 	"github.com/feichai0017/NoKV/manifest"
 	"github.com/feichai0017/NoKV/metrics"
 	"github.com/feichai0017/NoKV/utils"
+	"github.com/feichai0017/NoKV/verifhook"
 	"github.com/feichai0017/NoKV/vfs"
 )
 
@@ -229,8 +230,10 @@ func (lm *levelManager) flush(immutable *memTable) (err error) {
 	if err := lm.manifestMgr.LogEdits(fileEdit, pointerEdit); err != nil {
 		return err
 	}
+	verifhook.Yield(lm, "flush.manifest.logged")
 	lm.setLogPointer(immutable.segmentID, uint64(atomic.LoadInt64(&immutable.walSize)))
 	lm.levels[0].add(table)
+	verifhook.Yield(lm, "flush.table.installed")
 	if lm.canRemoveWalSegment(uint32(fid)) {
 		if err := lm.lsm.wal.RemoveSegment(uint32(fid)); err != nil && !errors.Is(err, os.ErrNotExist) {
 			return err
